@@ -446,3 +446,17 @@ Proof.
   intros Hna H. unfold extract_spec in H. apply bind_ok in H as [h0 [H0 H]].
   eapply treeshake_closed; [apply ListSet_ok| |exact H]. eapply extract_closed; eauto.
 Qed.
+
+(* ---------- operation names carry no dot, whether given or synthesised from the path ---------- *)
+Lemma replace_char_absent c (r s : str) : ~ In c r -> ~ In c (replace_char c r s).
+Proof.
+  intros Hr. rewrite replace_char_flat_map. intros H. apply in_flat_map in H as [x [_ Hx]].
+  destruct (ceqb x c) eqn:E; [exact (Hr Hx)|]. destruct Hx as [Hx|[]]. subst x. rewrite ceqb_refl in E. discriminate.
+Qed.
+
+Theorem make_name_no_dot opid m p n : make_name opid m p = Ok n -> ~ In "."%char n.
+Proof.
+  unfold make_name. destruct opid as [id|].
+  - intros H. apply Ok_inj in H. subst n. apply replace_char_absent. cbn. intros [H|[]]. discriminate H.
+  - intros H. apply bind_ok in H as [lg [_ H]]. apply Ok_inj in H. subst n. apply replace_char_absent. cbn. intros [H|[]]. discriminate H.
+Qed.
